@@ -35,6 +35,23 @@ Fixpoint seval (e : sexp) (size offb : nat) : nat :=
   | SIfLt a b t e' => if seval a size offb <? seval b size offb then seval t size offb else seval e' size offb
   end.
 
+(* bitspan::setZeros(length) at bit offset off (void fields, the C++ serializer's zero runs): the byte accesses SCANNED from the support
+   header, as index terms whose meaning the scanner pins (offset_bytes = off/8, length_bytes_ceil = (off%8 + length + 7)/8,
+   last_byte = offset_bytes + length_bytes_ceil - 1).  The log entry of a zero run is BW (off/8) (bytes_hi (off + length)). *)
+Inductive zidx : Type := ZFirst | ZLast.
+Inductive zacc : Type := ZByte (i : zidx) | ZMemset (from : zidx).          (* data_[i] ; memset(&data_[from], 0, length_bytes_ceil) *)
+Definition zlenceil (off len : nat) : nat := (off mod 8 + len + 7) / 8.
+Definition zidx_val (i : zidx) (off len : nat) : nat :=
+  match i with ZFirst => off / 8 | ZLast => off / 8 + zlenceil off len - 1 end.
+Definition zrange (a : zacc) (off len : nat) : nat * nat :=
+  match a with
+  | ZByte i => (zidx_val i off len, zidx_val i off len + 1)
+  | ZMemset i => (zidx_val i off len, zidx_val i off len + zlenceil off len)
+  end.
+(* inside the footprint the log entry states *)
+Definition zacc_in (off len : nat) (a : zacc) : bool :=
+  (off / 8 <=? fst (zrange a off len)) && (snd (zrange a off len) <=? bytes_hi (off + len)).
+
 (* ---- 2. variable-length array: scanned statements ---- *)
 Inductive lstmt : Type := LTmp | LDecodeTmp | LDecodeIdx | LPushBack.
 Inductive vstmt : Type :=
